@@ -30,6 +30,10 @@ def catalogue():
     out.append(('read/operator-inside-a-trailing-comment', 'y = obj.x  # later: obj.x += 1'))
     out.append(('read/operator-inside-a-string-literal', 'y = str("then obj.x += 1") + str(obj.x)'))
     out.append(('lock-request', '_, _lock = obj.x'))
+    # two different thread-safe attributes on one source line
+    out.append(('two-attributes/augmented-assignment-reads-another-attribute', 'obj.x += obj.y'))
+    out.append(('two-attributes/assignment-from-another-attribute', 'obj.y = obj.x + 1'))
+    out.append(('two-attributes/comparison', 'y = obj.x <= obj.y'))
     return out
 
 
@@ -43,7 +47,7 @@ def scenarios(seed, tier, failed):
 def run(sc):
     from miros.thread_safe_attributes import MetaThreadSafeAttributes
     src = ('from miros.thread_safe_attributes import MetaThreadSafeAttributes\n'
-           'class K(metaclass=MetaThreadSafeAttributes):\n    _attributes = ["x"]\n'
+           'class K(metaclass=MetaThreadSafeAttributes):\n    _attributes = ["x", "y"]\n'
            'class M:\n    def __matmul__(self, o): return 1\n    def __rmatmul__(self, o): return 1\n'
            'def go(obj):\n    y = 7\n    d = {}\n    k = 1\n    if "@" in %r:\n        y = M()\n    %s\n    return None\n'
            % (sc['statement'], sc['statement']))
@@ -57,6 +61,7 @@ def run(sc):
         spec.loader.exec_module(mod)
         obj = mod.K()
         obj.x = 2
+        obj.y = 3
         if '@' in sc['statement'] and 'obj.x @=' in sc['statement']:
             obj.x = mod.M()
         err = []
@@ -65,10 +70,16 @@ def run(sc):
         except Exception as ex:
             err.append(repr(ex))
         lock = type(obj).__dict__['x']._lock
+        lock_y = type(obj).__dict__['y']._lock
         got = []
-        t = threading.Thread(target=lambda: got.append(lock.acquire(timeout=0.3)), daemon=True)
+
+        def probe():
+            a = lock.acquire(timeout=0.3)
+            b = lock_y.acquire(timeout=0.3)
+            got.append(a and b)
+        t = threading.Thread(target=probe, daemon=True)
         t.start()
-        t.join(1.0)
+        t.join(1.5)
         if err:
             return False, 'statement %r raised %s' % (sc['statement'], err), 'forms/' + sc['form']
         if not got or not got[0]:
